@@ -17,6 +17,7 @@ EXPLANATION = (
     "start/end only where documented: the synthetic source/sink edges are added by the documented disjunctions and node mode maps declared "
     "starts to 'v.0' and ends to 'v.1' (expansion naming scheme agrees with its reader); (R7) under a given weight superset the cap on non-empty paths is "
     "the caller's k (taken before k is overwritten by the number of candidate weights) and the cap row is present.  "
+    " (R5, extended) the remove-empty filters decide emptiness on the internal (expanded) route where the class publishes one, and filter `_paths_internal` / `_walks_internal` with the same mask - in node-weighted mode a route through one node is not empty; (R7, extended) a class that forces allow_empty_paths itself (one layer per given weight) removes the unused layers in get_solution unless the caller asked for empty paths. "
     "NOT decided: that the solver returns a point satisfying the rows; simplicity of DAG paths and 'exactly k' follow from the rows."
 )
 DECIDED = ["path/walk-shape constraints present and complete", "synthetic endpoints never reach a public return value",
